@@ -265,16 +265,15 @@ func (g *progGen) leaf() string {
 }
 
 func (g *progGen) agg(inner string) string {
-	op := []string{"sum", "max", "min", "count", "avg", "group", "topk", "quantile", "stddev"}[g.x.Draw("agg-op", 9)]
+	// topk/bottomk are left out: with equal values the engine may keep either series, so two correct
+	// evaluations can differ.
+	op := []string{"sum", "max", "min", "count", "avg", "group", "quantile", "stddev"}[g.x.Draw("agg-op", 8)]
 	mod := "by"
 	if g.x.Bool("agg-without", 1, 3) {
 		mod = "without"
 	}
 	param := ""
-	switch op {
-	case "topk":
-		param = "1, "
-	case "quantile":
+	if op == "quantile" {
 		param = "0.5, "
 	}
 	return fmt.Sprintf("%s %s (%s) (%s%s)", op, mod, g.labelsList("agg-label", 1), param, inner)
